@@ -615,6 +615,33 @@ impl World {
 
     // ---------------- pattern edits
 
+    /// one `extend` whose iterator reports `reported` elements and yields `real` (< reported): the rest of the reservation
+    /// stays unpublished for good. Only used on streams that are never ticked (the matcher would wait for them forever).
+    pub fn push_lying(&mut self, k: usize, real: usize, reported: usize) {
+        struct Liar<I> {
+            inner: I,
+            reported: usize,
+        }
+        impl<I: Iterator> Iterator for Liar<I> {
+            type Item = I::Item;
+            fn next(&mut self) -> Option<I::Item> {
+                self.inner.next()
+            }
+        }
+        impl<I: Iterator> ExactSizeIterator for Liar<I> {
+            fn len(&self) -> usize {
+                self.reported
+            }
+        }
+        let stream = self.handles[k].stream;
+        let first = self.alloc_ids(real as u32);
+        *self.invoked.lock().unwrap().entry(stream).or_insert(0) += reported as u32;
+        let items: Vec<Payload> = (first..first + real as u32).map(|i| Payload::new(i, stream, &self.reg)).collect();
+        self.handles[k].inj.extend(Liar { inner: items.into_iter(), reported }, |p, cols| fill_cols(p.id, cols));
+        *self.completed.lock().unwrap().entry(stream).or_insert(0) += real as u32;
+        self.note(format!("extend reporting {reported} elements, yielding {real} (ids {first}..) via handle {k} (stream {stream})"));
+    }
+
     pub fn edit(&mut self, col: usize, new_text: &str) {
         let (case, norm) = self.modes[col];
         self.edit_with(col, new_text, case, norm)
